@@ -691,8 +691,11 @@ class Gen:
                     import re
                     words = set(re.findall(r"[A-Za-z_][A-Za-z0-9_]*", src(body)))
                     shared = [v for v in ctx["vars"] if v[1] == F and v[2] and v[0] in words]
+                    shared = shared or [v for v in ctx["vars"] if v[1] == F and v[2]]
                     if shared:
                         v = r.pick(shared)
+                        # the closure's result depends on the shared variable
+                        stmts[-1] = ("let", fname, Node("lam", ps, self.add_to_tail(body, Node("var", v[0]))))
                         stmts.append(("set", v[0], self.simple(d, ctx)))
                         y = self.fresh()
                         stmts.append(("let", y, Node("app", Node("var", fname), [self.simple(d, ctx) for _ in ps])))
@@ -794,6 +797,14 @@ class Gen:
         fn = Fn(name, ps, [F] * nparams, ret, body, used_self[0], self.site > s0 or used_self[0])
         fn.defaults = defaults
         return fn
+
+    def add_to_tail(self, n, extra):
+        """`n` with `+ extra` applied to every value it can return"""
+        if n.kind in ("let", "lett", "set", "letp", "letr", "setf", "letrp"):
+            return Node(n.kind, *(list(n.a[:-1]) + [self.add_to_tail(n.a[-1], extra)]))
+        if n.kind == "if":
+            return Node("if", n.a[0], self.add_to_tail(n.a[1], extra), self.add_to_tail(n.a[2], extra))
+        return Node("bin", "add", n, extra)
 
     def arith_tail(self, n):
         if n.kind in ("let", "lett", "set", "letp", "letr", "setf", "letrp"):
